@@ -42,6 +42,30 @@ def cases(L, tier, seed):
                         # entry points: kmedoids() warm (consistent state supplied) and cold (n_clusters), hybrid, estimators
                         yield CG.ClusterEntry('enspara/cluster/kmedoids.py::kmedoids[warm]', ref_cost=ref, k_expected=K, modifies=WARM_MOD), KM.kmedoids, \
                             dict(X=X.copy(), distance_method=metric, n_iters=it, assignments=asg.copy(), distances=D.copy(), cluster_center_inds=list(start), random_state=1), ('kmedoids-warm', X.tolist(), start, it)
+                        # other forms of a supplied consistent state: index array (must not be overwritten), centres in non-increasing frame
+                        # order, centres inferred from labels + distances, (trajectory, frame) pairs with ragged lengths
+                        yield CG.ClusterEntry('enspara/cluster/kmedoids.py::kmedoids[warm]', ref_cost=ref, k_expected=K), KM.kmedoids, \
+                            dict(X=X.copy(), distance_method=metric, n_iters=it, assignments=asg.copy(), distances=D.copy(), cluster_center_inds=np.array(start), random_state=1), ('kmedoids-warm-ndarray', X.tolist(), start, it)
+                        if K >= 2:
+                            rs = list(start[::-1])
+                            asg_r, D_r = UT.assign_to_nearest_center(X, X[rs], dm)
+                            ref_r = float(np.mean(np.square(D_r)))
+                            yield CG.ClusterEntry('enspara/cluster/kmedoids.py::kmedoids[warm]', ref_cost=ref_r, k_expected=K, modifies=WARM_MOD), KM.kmedoids, \
+                                dict(X=X.copy(), distance_method=metric, n_iters=it, assignments=asg_r.copy(), distances=D_r.copy(), cluster_center_inds=list(rs), random_state=1), ('kmedoids-warm-reversed', X.tolist(), rs, it)
+                            yield CG.ClusterEntry('enspara/cluster/kmedoids.py::kmedoids[warm]', ref_cost=ref_r, k_expected=K), KM.kmedoids, \
+                                dict(X=X.copy(), distance_method=metric, n_iters=it, assignments=asg_r.copy(), distances=D_r.copy(), random_state=1), ('kmedoids-warm-inferred-centres', X.tolist(), rs, it)
+                            yield CG.ClusterEntry('enspara/cluster/kcenters.py::kcenters[warm]', k_expected=max(K, 1), data_arg='traj'), KC.kcenters, \
+                                dict(traj=X.copy(), distance_method=metric, n_clusters=K, init_centers=X[rs].copy()), ('kcenters-warm-reversed', X.tolist(), rs)
+                            yield CK.Hybrid('n'), HY.hybrid, dict(X=X.copy(), distance_method=metric, n_iters=it, n_clusters=K, dist_cutoff=None, random_state=3, init_centers=X[rs].copy()), ('hybrid-warm-reversed', X.tolist(), rs, it)
+                        if n >= 3:
+                            lens = [1, n - 1] if n < 5 else [2, 1, n - 3]
+                            off = np.concatenate([[0], np.cumsum(lens)])
+                            pairs = []
+                            for c_ in start:
+                                t_ = int(np.searchsorted(off, c_, side='right') - 1)
+                                pairs.append((t_, int(c_ - off[t_])))
+                            yield CG.ClusterEntry('enspara/cluster/kmedoids.py::kmedoids[warm]', ref_cost=ref, k_expected=K), KM.kmedoids, \
+                                dict(X=X.copy(), distance_method=metric, n_iters=it, cluster_center_inds=list(pairs), X_lengths=list(lens), random_state=1), ('kmedoids-warm-pairs', X.tolist(), pairs, lens, it)
                         yield CG.ClusterEntry('enspara/cluster/kmedoids.py::kmedoids[cold]', k_expected=K), KM.kmedoids, \
                             dict(X=X.copy(), distance_method=metric, n_clusters=K, n_iters=it, random_state=2), ('kmedoids-cold', X.tolist(), K, it)
                         yield CK.Hybrid('n'), HY.hybrid, dict(X=X.copy(), distance_method=metric, n_iters=it, n_clusters=K, dist_cutoff=None, random_state=3), ('hybrid', X.tolist(), K, it)
